@@ -5,14 +5,27 @@
 // order and intact, and that the switches it is told about are consistent. Built plain, with
 // -fsanitize=thread (vector clocks honour the memory_order arguments: a weakened `next` publish is a
 // reported race on the new node even on x86) and with -fsanitize=address (late access to a deleted node).
-// usage: uq_mt <initial> <max> <records> <seed>   prints "OK <n> grows=<g> switches=<s>" or "CORRUPT <index> <why>"
+// usage: uq_mt <initial> <max> <records> <seed> [pin]  prints "OK <n> grows=<g> switches=<s>" or "CORRUPT <index> <why>"
+// pin=1: both threads are pinned to one CPU and poll without yielding, so that they are preempted by the
+// timer at arbitrary instructions (this is what opens the few-instruction windows inside prepare_read,
+// e.g. between "old node is empty" and the load of `next`, on a machine with spare cores)
 #include "quill/core/UnboundedSPSCQueue.h"
 #include <atomic>
 #include <cstdio>
 #include <cstdlib>
 #include <cstring>
 #include <thread>
+#include <pthread.h>
+#include <sched.h>
 using namespace quill::detail;
+
+static void pin_to_cpu0_of_mask()
+{
+  cpu_set_t cur; CPU_ZERO(&cur);
+  if (sched_getaffinity(0, sizeof(cur), &cur) != 0) return;
+  for (int c = 0; c < CPU_SETSIZE; ++c)
+    if (CPU_ISSET(c, &cur)) { cpu_set_t one; CPU_ZERO(&one); CPU_SET(c, &one); pthread_setaffinity_np(pthread_self(), sizeof(one), &one); return; }
+}
 
 static inline uint32_t lcg(uint32_t& s) { s = s * 1664525u + 1013904223u; return s >> 8; }
 
@@ -22,10 +35,12 @@ int main(int argc, char** argv)
   size_t maxc = argc > 2 ? strtoull(argv[2], nullptr, 10) : 65536;
   size_t nrec = argc > 3 ? strtoull(argv[3], nullptr, 10) : 100000;
   uint32_t seed = argc > 4 ? static_cast<uint32_t>(strtoul(argv[4], nullptr, 10)) : 1;
+  bool const pin = argc > 5 && strtoul(argv[5], nullptr, 10) != 0;
   UnboundedSPSCQueue q(initial, maxc);
   size_t const maxlen = maxc / 2 > 16 ? maxc / 2 : 16;
   std::atomic<size_t> grows{0};
   std::thread prod([&] {
+    if (pin) pin_to_cpu0_of_mask();
     uint32_t s = seed;
     for (size_t i = 0; i < nrec; ++i)
     {
@@ -36,6 +51,7 @@ int main(int argc, char** argv)
       size_t const cap_before = q.producer_capacity();
       std::byte* p;
       while (!(p = q.prepare_write(len))) std::this_thread::yield();   // at the cap: block until the consumer made room
+      if (pin && (r % 4 == 3)) for (volatile int k = 0; k < 200; ++k) {}  // let the consumer catch up now and then
       if (q.producer_capacity() != cap_before) grows.fetch_add(1, std::memory_order_relaxed);
       uint32_t hdr[2] = {static_cast<uint32_t>(len), static_cast<uint32_t>(i)};
       std::memcpy(p, hdr, 8);
@@ -47,6 +63,7 @@ int main(int argc, char** argv)
   });
   size_t switches = 0;
   std::thread cons([&] {
+    if (pin) pin_to_cpu0_of_mask();
     for (size_t i = 0; i < nrec; ++i)
     {
       UnboundedSPSCQueue::ReadResult rr{nullptr};
@@ -60,7 +77,7 @@ int main(int argc, char** argv)
           { std::printf("CORRUPT %zu switch-capacities\n", i); std::fflush(stdout); std::_Exit(3); }
         }
         if (rr.read_pos) break;
-        std::this_thread::yield();
+        if (!pin) std::this_thread::yield();
       }
       std::byte* p = rr.read_pos;
       uint32_t hdr[2]; std::memcpy(hdr, p, 8);
